@@ -15,10 +15,11 @@
               combinator used here produces Failure: many_m_n is only called with min <= max).
               parse_logfmt.rs = the "=" / " " / lenient / standalone-key instance. *)
 From Coq Require Import List NArith Bool.
+From VRL Require Import Base.Bytes.
 Import ListNotations.
 Local Open Scope N_scope.
 
-Definition str := list N.
+Definition str := bytes.
 
 (* ---------------------------------------------------------------- characters *)
 Definition c_tab : N := 9.   Definition c_nl : N := 10.   Definition c_cr : N := 13.
@@ -34,32 +35,22 @@ Definition is_ws (c : N) : bool :=
 (* nom `space0`: spaces and tabs *)
 Definition is_sptab (c : N) : bool := (c =? c_sp) || (c =? c_tab).
 
-Fixpoint str_eqb (a b : str) : bool :=
-  match a, b with
-  | [], [] => true
-  | x :: a', y :: b' => (x =? y) && str_eqb a' b'
-  | _, _ => false
-  end.
-
-Fixpoint str_cmp (a b : str) : comparison :=
-  match a, b with
-  | [], [] => Eq
-  | [], _ :: _ => Lt
-  | _ :: _, [] => Gt
-  | x :: a', y :: b' => match x ?= y with Eq => str_cmp a' b' | c => c end
-  end.
+(* equality and the BTreeMap key order: Base/Bytes.v (lexicographic on the elements; UTF-8 preserves
+   code-point order, so this is the order of KeyString) *)
+Notation str_eqb := bytes_eqb.
+Notation str_cmp := bytes_cmp.
 
 Definition is_nil {A} (l : list A) : bool := match l with [] => true | _ => false end.
 
 (* ---------------------------------------------------------------- encoder *)
-(* encode_string: needs_quoting = any char is whitespace, '"' or '=' *)
+(* encode_string: needs_quoting = any char is whitespace, a double quote or '=' *)
 Definition needs_quoting (s : str) : bool :=
   existsb (fun c => is_ws c || (c =? c_dq) || (c =? c_eq)) s.
 
 Definition esc_char (c : N) : str :=
-  if c =? c_bs then [c_bs; c_bs]                 (* '\\' => r"\\"  *)
-  else if c =? c_dq then [c_bs; c_dq]            (* '"'  => r#"\""# *)
-  else if c =? c_nl then [c_bs; c_bs; c_n]       (* '\n' => r"\\n"  (three characters) *)
+  if c =? c_bs then [c_bs; c_bs]                 (* backslash => two backslashes *)
+  else if c =? c_dq then [c_bs; c_dq]            (* double quote => backslash, double quote *)
+  else if c =? c_nl then [c_bs; c_bs; c_n]       (* newline => backslash, backslash, n (the raw string has three characters) *)
   else [c].
 
 Definition escape_body (s : str) : str := flat_map esc_char s.
